@@ -1,6 +1,6 @@
 (* C10 -- interactive commands: output, exit status and early exit are reported faithfully.
    Property theorems only; proofs are in ProofC10.v (over the models Proxy.v, Session.v, Channel.v). *)
-From TV Require Import Base Utf8 Regex Channel ChannelCorr ChannelLemmas Hush Session ProofSession Sh Proxy ProofC10.
+From TV Require Import Base Utf8 Regex Channel ChannelCorr ChannelLemmas ProofC05 Hush Session ProofSession Sh Proxy ProofC10 ProofC10b.
 
 (* (1) after termination, and after an early exit has been noticed, EVERY sequence of proxy operations raises
        CommandEndedException and leaves the proxy and the transport exactly as they were *)
@@ -62,3 +62,34 @@ Theorem C10_leaving_without_terminate_raises :
   forall p, leave p = VL [VN 11] <-> alive p = true.
 Proof. exact leave_refused_iff_alive. Qed.
 Print Assumptions C10_leaving_without_terminate_raises.
+
+(* (6) early exit, completely: while the command runs (h = the bytes received since its command line was echoed),
+       an interaction raises CommandEndedException IF AND ONLY IF the bytes it consumed complete the shell prompt --
+       never on other data, never missed, for every fragmentation and timing (composes C05's ring-buffer theorem
+       with the proxy model); otherwise the caller gets the data and the invariant carries on with the longer history *)
+Theorem C10_interaction_raises_iff_prompt_received :
+  forall P h own tmo sts p v p',
+  st p = PRunning -> wfc (pc p) -> only_prompt P (pc p) -> dinv (deaths (pc p)) [h] ->
+  proxy_io (ORup (Some (SLit own)) tmo) sts p = (v, p') ->
+  (st p' = PEnded ->
+     v = V_CE /\ exists data, cpend (pc p) = data ++ cpend (pc p') /\ contains P (h ++ data) = true) /\
+  (st p' <> PEnded ->
+     st p' = PRunning /\ wfc (pc p') /\ only_prompt P (pc p') /\
+     forall out, v = V_data out ->
+       exists data, cpend (pc p) = data ++ cpend (pc p') /\ contains P (h ++ data) = false /\
+                    dinv (deaths (pc p')) [h ++ data]).
+Proof. exact proxy_rup_raises_iff_prompt_received. Qed.
+Print Assumptions C10_interaction_raises_iff_prompt_received.
+
+(* (7) run() establishes that invariant with an empty history: the command line is sent, exactly its echo is
+       consumed, the shell prompt is the only death string *)
+Theorem C10_run_establishes_the_invariant :
+  forall cmd P parent stg rest echo sts,
+  insync parent -> prompt parent = Some (SLit P) -> P <> [] ->
+  any_in (blacklist parent) (cmd ++ [CR]) = false ->
+  wf_pend stg -> cat stg = echo ++ rest -> length echo = readback_len (cmd ++ [CR]) ->
+  exists p, run_start cmd (stg :: sts) parent = (VL [VN 0], p) /\
+    st p = PRunning /\ alive p = true /\ early p = false /\ gdone p = false /\
+    wfc (pc p) /\ only_prompt P (pc p) /\ dinv (deaths (pc p)) [[]] /\ cpend (pc p) = rest.
+Proof. exact run_start_establishes. Qed.
+Print Assumptions C10_run_establishes_the_invariant.
